@@ -5,6 +5,7 @@ package menv
 
 import (
 	"context"
+	"net/http"
 	"database/sql"
 	"errors"
 	"fmt"
@@ -47,6 +48,18 @@ type Env struct {
 	Keysets map[string]*client.Keyset
 	Panics  []string
 	Crashed *ctl.Event
+	// Hook, if set, wraps every guarded API call (monitors take snapshots around it).
+	Hook   func(name string, call func() error) error
+	op     string
+	server *mint.MintServer
+}
+
+// Handler returns the HTTP router of a MintServer set up on the current mint instance.
+func (e *Env) Handler() http.Handler {
+	if e.server == nil {
+		e.server = mint.SetupMintServer(e.M, mint.ServerConfig{})
+	}
+	return e.server.VerifHandler()
 }
 
 // ErrPanic wraps a recovered panic of a mint API call.
@@ -88,6 +101,7 @@ func (e *Env) load(rotate bool, fee uint) error {
 	}
 	m.VerifWrapDB(dbwrap.Wrap(e.Hub))
 	e.M = m
+	e.server = nil
 	e.Crashed = nil
 	e.RefreshKeysets()
 	return nil
@@ -152,6 +166,16 @@ func (e *Env) Active() *client.Keyset {
 
 // guard runs a mint API call, converting panics and simulated crashes.
 func (e *Env) guard(fn func() error) (err error) {
+	if e.Hook != nil {
+		h := e.Hook
+		e.Hook = nil // calls made by the monitor itself are not hooked
+		defer func() { e.Hook = h }()
+		return h(e.op, func() error { return e.guard0(fn) })
+	}
+	return e.guard0(fn)
+}
+
+func (e *Env) guard0(fn func() error) (err error) {
 	defer func() {
 		if x := recover(); x != nil {
 			if cs, ok := x.(ctl.CrashSentinel); ok {
@@ -174,6 +198,7 @@ func IsPanic(err error) bool {
 }
 
 func (e *Env) RequestMintQuote(amount uint64, pubkey string) (q storage.MintQuote, err error) {
+	e.op = "RequestMintQuote"
 	err = e.guard(func() error {
 		var er error
 		q, er = e.M.RequestMintQuote(nut04.PostMintQuoteBolt11Request{Amount: amount, Unit: "sat", Pubkey: pubkey})
@@ -183,11 +208,13 @@ func (e *Env) RequestMintQuote(amount uint64, pubkey string) (q storage.MintQuot
 }
 
 func (e *Env) MintQuoteState(id string) (q storage.MintQuote, err error) {
+	e.op = "MintQuoteState"
 	err = e.guard(func() error { var er error; q, er = e.M.GetMintQuoteState(id); return er })
 	return
 }
 
 func (e *Env) MintTokens(quote string, outs cashu.BlindedMessages, sig string) (sigs cashu.BlindedSignatures, err error) {
+	e.op = "MintTokens"
 	err = e.guard(func() error {
 		var er error
 		sigs, er = e.M.MintTokens(nut04.PostMintBolt11Request{Quote: quote, Outputs: outs, Signature: sig})
@@ -197,11 +224,13 @@ func (e *Env) MintTokens(quote string, outs cashu.BlindedMessages, sig string) (
 }
 
 func (e *Env) Swap(inputs cashu.Proofs, outs cashu.BlindedMessages) (sigs cashu.BlindedSignatures, err error) {
+	e.op = "Swap"
 	err = e.guard(func() error { var er error; sigs, er = e.M.Swap(inputs, outs); return er })
 	return
 }
 
 func (e *Env) RequestMeltQuote(request string, mppMsat uint64) (q storage.MeltQuote, err error) {
+	e.op = "RequestMeltQuote"
 	err = e.guard(func() error {
 		req := nut05.PostMeltQuoteBolt11Request{Request: request, Unit: "sat"}
 		if mppMsat > 0 {
@@ -215,6 +244,7 @@ func (e *Env) RequestMeltQuote(request string, mppMsat uint64) (q storage.MeltQu
 }
 
 func (e *Env) MeltQuoteState(id string) (q storage.MeltQuote, err error) {
+	e.op = "MeltQuoteState"
 	err = e.guard(func() error {
 		ctx, cancel := context.WithTimeout(context.Background(), 5*time.Second)
 		defer cancel()
@@ -226,6 +256,7 @@ func (e *Env) MeltQuoteState(id string) (q storage.MeltQuote, err error) {
 }
 
 func (e *Env) Melt(quote string, inputs cashu.Proofs) (q storage.MeltQuote, err error) {
+	e.op = "Melt"
 	err = e.guard(func() error {
 		ctx, cancel := context.WithTimeout(context.Background(), 60*time.Second)
 		defer cancel()
@@ -237,16 +268,19 @@ func (e *Env) Melt(quote string, inputs cashu.Proofs) (q storage.MeltQuote, err 
 }
 
 func (e *Env) CheckState(Ys []string) (st []nut07.ProofState, err error) {
+	e.op = "CheckState"
 	err = e.guard(func() error { var er error; st, er = e.M.ProofsStateCheck(Ys); return er })
 	return
 }
 
 func (e *Env) Restore(outs cashu.BlindedMessages) (o cashu.BlindedMessages, s cashu.BlindedSignatures, err error) {
+	e.op = "Restore"
 	err = e.guard(func() error { var er error; o, s, er = e.M.RestoreSignatures(outs); return er })
 	return
 }
 
 func (e *Env) Rotate(fee uint) (err error) {
+	e.op = "Rotate"
 	err = e.guard(func() error { _, er := e.M.RotateKeyset(fee); return er })
 	if err == nil {
 		e.RefreshKeysets()
